@@ -27,6 +27,21 @@ timestamp (`C20_frame`).  The code's key is `HTTPNode.CacheKey`: the SHA-256 of 
 string (`Tie.remote_cacheKey_ok`); the harness reads URLs that differ only in the query / case /
 slashes in successive steps over one cache directory.
 
+**A cached copy is only used if it has the stored checksum** (fix R8-3): `usable sha e` is the
+cached content when `sha` of it equals the stored checksum, nothing otherwise; `readRemote` looks at
+`usable`, never at `Entry.content` directly.  The cached content and the stored checksum are
+therefore *independent* components of the state — the three (four) cache files are written one after
+the other, a crash between the writes (`Pre.crash`) or anything else that replaces, truncates or
+removes the `.yaml` (`Pre.damage`) leaves them inconsistent — and trust does not rest on an
+invariant between them.
+
+**Redirects** (`Server.redirect`, fix R8-1): every request of an http node is made by a client that
+refuses a redirect to a plain-http URL unless `--insecure` was given (`Fail.insecureHop`, 105).
+**Directory-style URLs** (`Server.dir`, fix R8-2): the URL itself is not a Taskfile, `RemoteExists`
+finds it under a default name; the URL it was found at (`landing`) is what relative includes are
+resolved against, and it is stored with the cached copy (`Entry.loc`, the file `<key>.location`)
+so that the copy read from the cache includes the same files as the downloaded one.
+
 Contents and checksums are abstract numbers; `sha : Content → Sum` is a parameter about
 which nothing is assumed.  Time is a logical clock (`now`), advanced by `Step.dt`.
 -/
@@ -35,19 +50,35 @@ namespace TaskModel.Remote
 abbrev Content := Nat
 abbrev Sum := Nat
 
-/-- the three cache files of one remote URL (`<key>.yaml`, `.checksum`, `.timestamp`) -/
+structure Url where
+  id : Nat
+  https : Bool
+deriving Repr, DecidableEq
+
+/-- the cache files of one remote URL (`<key>.yaml`, `.checksum`, `.timestamp`, `.location`) -/
 structure Entry where
   content : Option Content
   sum : Option Sum
   ts : Option Nat
+  /-- where the cached copy was downloaded from: the URL itself, or the URL completed by a default
+  Taskfile name (`CacheNode.WriteResolvedLocation`); includes are resolved against it -/
+  loc : Option Url
 deriving Repr, DecidableEq
 
-def Entry.empty : Entry := ⟨none, none, none⟩
+def Entry.empty : Entry := ⟨none, none, none, none⟩
 
 /-- `cache.WriteChecksum`, `cache.WriteTimestamp`, `cache.Write` -/
 def Entry.writeSum (e : Entry) (x : Sum) : Entry := { e with sum := some x }
 def Entry.writeTs (e : Entry) (t : Nat) : Entry := { e with ts := some t }
+def Entry.writeLoc (e : Entry) (r : Url) : Entry := { e with loc := some r }
 def Entry.writeContent (e : Entry) (c : Content) : Entry := { e with content := some c }
+
+/-- the cached copy as `readRemoteNodeContent` sees it: the content of `<key>.yaml`, provided its
+checksum is the stored one (`checksum(cachedBytes) != cache.ReadChecksum()` ⇒ no cache) -/
+def usable (sha : Content → Sum) (e : Entry) : Option Content :=
+  match e.content with
+  | some c => if e.sum = some (sha c) then some c else none
+  | none => none
 
 structure RState where
   now : Nat
@@ -69,27 +100,30 @@ structure RFlags where
   experiment : Bool     -- TASK_X_REMOTE_TASKFILES=1
 deriving Repr, DecidableEq
 
-structure Url where
-  id : Nat
-  https : Bool
-deriving Repr, DecidableEq
-
 /-- why a fetch failed without the context having expired -/
 inductive Fail
   | refused      -- no connection / connection reset: `TaskfileFetchFailedError`
   | notFound     -- HEAD answers non-200 (or a foreign content type) on the URL and on every default name
   | getError     -- HEAD fine, GET answers non-200: `TaskfileFetchFailedError{HTTPStatusCode}`
+  | insecureHop  -- a redirect to plain http without `--insecure`, refused by the node's `CheckRedirect`
 deriving Repr, DecidableEq
 
 def Fail.code : Fail → Nat
   | .refused => 103
   | .notFound => 100
   | .getError => 103
+  | .insecureHop => 105
 
 inductive Server
   | serve (c : Content)
   | fail (k : Fail)
   | slow (c : Content)   -- answers `c`, but only after a delay longer than a short `--timeout`
+  /-- answers every request with a redirect to `to`, where the server behaves as `next` -/
+  | redirect (to : Url) (next : Server)
+  /-- a directory-style URL: the URL itself is not a Taskfile (HEAD: not 200, or a foreign content
+  type); among the default Taskfile names the first that answers is the URL `to`, which behaves as
+  `file` (`fail .notFound`: none of the names answers 200) -/
+  | dir (to : Url) (file : Server)
 deriving Repr, DecidableEq
 
 inductive Answer
@@ -107,12 +141,46 @@ def net (f : RFlags) : Server → Net
   | .serve c => .content c
   | .fail k => .failed k
   | .slow c => if f.patient then .content c else .timedOut
+  | .redirect to next => if !to.https && !f.insecure then .failed .insecureHop else net f next
+  | .dir _ file => net f file
+
+/-- the URL `RemoteExists` returns (`node.URL` after a fetch): the node's own URL, or — for a
+directory-style URL — the default name that answered.  (A redirect does not change it: the
+request's URL is returned, not the response's.) -/
+def landing (u : Url) : Server → Url
+  | .dir to _ => to
+  | _ => u
+
+/-- the URLs a fetch sends requests to: the node's own URL (for a directory-style URL: and the
+default names under it, on the same host and scheme) and the target of every redirect it follows -/
+def requested (f : RFlags) (u : Url) : Server → List Url
+  | .redirect to next => u :: (if !to.https && !f.insecure then [] else requested f to next)
+  | .dir _ file => requested f u file
+  | _ => [u]
+
+/-- the fetch comes to a redirect it refuses -/
+def refusedHop (f : RFlags) : Server → Bool
+  | .redirect to next => (!to.https && !f.insecure) || refusedHop f next
+  | .dir _ file => refusedHop f file
+  | _ => false
 
 inductive RResult
   | run (c : Content)      -- content handed on for execution
   | cleared                -- `--clear-cache`: exit 0, nothing executed
   | error (code : Nat)
 deriving Repr, DecidableEq
+
+/-- the process exit status -/
+def RResult.exit : RResult → Nat
+  | .run _ => 0
+  | .cleared => 0
+  | .error code => code
+
+/-- what the invocation executed: the contents whose `probe` task ran, in order (the trace file the
+harness hands to the binary as `$VERIF_TRACE`) -/
+def RResult.trace : RResult → List Content
+  | .run c => [c]
+  | _ => []
 
 /-- `Logger.Prompt`: `--yes` first, then the terminal test, then the answer -/
 def approves (f : RFlags) (a : Answer) : Bool :=
@@ -133,7 +201,7 @@ def needsPrompt (e : Entry) (x : Sum) : Bool :=
 /-- the part of `readRemoteNodeContent` after "Try to read the remote file";
 `cached` is `some` iff `cacheFound` -/
 def fetch (legacy : Bool) (sha : Content → Sum) (now : Nat) (e : Entry) (f : RFlags)
-    (n : Net) (a : Answer) (cached : Option Content) : RResult × Entry :=
+    (n : Net) (a : Answer) (cached : Option Content) (r : Url) : RResult × Entry :=
   match n with
   | .timedOut =>
     match cached with
@@ -145,19 +213,40 @@ def fetch (legacy : Bool) (sha : Content → Sum) (now : Nat) (e : Entry) (f : R
     | none => (.error k.code, e)
   | .content c =>
     if needsPrompt e (sha c) && !approves f a then (.error 104, e)
-    else (.run c, ((e.writeSum (sha c)).writeTs now).writeContent c)
+    else (.run c, (((e.writeSum (sha c)).writeTs now).writeLoc r).writeContent c)
 
-/-- `readRemoteNodeContent` -/
-def readRemote (legacy : Bool) (sha : Content → Sum) (now : Nat) (e : Entry) (f : RFlags)
-    (n : Net) (a : Answer) : RResult × Entry :=
-  match e.content with
+/-- `readRemoteNodeContent`, over what it takes for the cached copy (`cachedOf e`); `r` = the URL a
+successful fetch finds the file at (`landing`) -/
+def readRemoteWith (cachedOf : Entry → Option Content) (legacy : Bool) (sha : Content → Sum) (now : Nat)
+    (e : Entry) (f : RFlags) (n : Net) (a : Answer) (r : Url) : RResult × Entry :=
+  match cachedOf e with
   | none =>
-    if f.offline then (.error 106, e) else fetch legacy sha now e f n a none
+    if f.offline then (.error 106, e) else fetch legacy sha now e f n a none r
   | some cached =>
     if !cacheValid now e f.expiry then
-      if f.offline then (.run cached, e) else fetch legacy sha now e f n a (some cached)
+      if f.offline then (.run cached, e) else fetch legacy sha now e f n a (some cached) r
     else
-      if !f.download then (.run cached, e) else fetch legacy sha now e f n a (some cached)
+      if !f.download then (.run cached, e) else fetch legacy sha now e f n a (some cached) r
+
+/-- `readRemoteNodeContent` (repaired: the cached copy counts only with the stored checksum) -/
+def readRemote (legacy : Bool) (sha : Content → Sum) (now : Nat) (e : Entry) (f : RFlags)
+    (n : Net) (a : Answer) (r : Url) : RResult × Entry :=
+  readRemoteWith (usable sha) legacy sha now e f n a r
+
+/-- the decision table in front of the fetch: does this invocation go to the network? -/
+def wantsFetch (sha : Content → Sum) (now : Nat) (e : Entry) (f : RFlags) : Bool :=
+  match usable sha e with
+  | none => !f.offline
+  | some _ => if !cacheValid now e f.expiry then !f.offline else f.download
+
+/-- the rule before fix R8-3: whatever is in `<key>.yaml` is the cached copy -/
+def readRemoteNoRecheck (legacy : Bool) (sha : Content → Sum) (now : Nat) (e : Entry) (f : RFlags)
+    (n : Net) (a : Answer) (r : Url) : RResult × Entry :=
+  readRemoteWith (·.content) legacy sha now e f n a r
+
+/-- the URL the includes of a node are resolved against once it has been read (`e'` = its cache entry
+after the read): the stored location, for a copy from before `.location` existed the node's own URL -/
+def baseOf (u : Url) (e' : Entry) : Url := e'.loc.getD u
 
 structure Step where
   dt : Nat
@@ -190,7 +279,8 @@ def invokeWith (legacy : Bool) (sha : Content → Sum) (s : RState) (st : Step) 
   match gate st with
   | some code => (.error code, s)
   | none =>
-    match readRemote legacy sha s.now (s.ent st.url.id) st.flags (net st.flags st.server) st.answer with
+    match readRemote legacy sha s.now (s.ent st.url.id) st.flags (net st.flags st.server) st.answer
+        (landing st.url st.server) with
     | (.run c, e') =>
       if st.flags.clearCache then (.cleared, { s with ent := fun _ => Entry.empty })
       else (.run c, s.set st.url.id e')
@@ -214,11 +304,135 @@ def run (sha : Content → Sum) (s : RState) (h : List Step) : List RResult × R
 /-- state reached from the empty cache by a history -/
 def reach (sha : Content → Sum) (h : List Step) : RState := (run sha RState.init h).2
 
-/-- per-step observation used by the driver: result and the entries of the urls `0..k-1` after the step -/
-def observe (legacy : Bool) (sha : Content → Sum) (k : Nat) : RState → List Step → List (RResult × List Entry)
+/-! ## Histories with torn cache states
+
+Besides complete invocations a history may contain
+* `Pre.crash st k` — the invocation `st`, killed (power loss, full disk, SIGKILL) after `k` of the
+  four cache writes of its node (`WriteChecksum`, `WriteTimestamp`, `WriteResolvedLocation`, `Write`);
+  `k = 0`: before the first write, `k ≥ 4`: after the last.  Only an invocation that gets as far as
+  the writes (downloaded content, already approved or approved now) leaves anything;
+* `Pre.damage u c` — the file `<key>.yaml` of URL `u` is replaced by other content, truncated
+  (`some c`) or removed (`none`) by something that is not Task.  The checksum file — the trust
+  anchor — is written by Task only. -/
+
+inductive Pre
+  | crash (st : Step) (k : Nat)
+  | damage (u : Nat) (c : Option Content)
+deriving Repr, DecidableEq
+
+/-- the first `k` of the writes `written` consists of -/
+def partialWrite (sha : Content → Sum) (now : Nat) (e : Entry) (c : Content) (r : Url) : Nat → Entry
+  | 0 => e
+  | 1 => e.writeSum (sha c)
+  | 2 => (e.writeSum (sha c)).writeTs now
+  | 3 => ((e.writeSum (sha c)).writeTs now).writeLoc r
+  | _ + 4 => (((e.writeSum (sha c)).writeTs now).writeLoc r).writeContent c
+
+/-- does `readRemote` get to the cache writes, and with which content? -/
+def writes (sha : Content → Sum) (now : Nat) (e : Entry) (f : RFlags) (n : Net) (a : Answer) : Option Content :=
+  match n with
+  | .content c => if wantsFetch sha now e f && !(needsPrompt e (sha c) && !approves f a) then some c else none
+  | _ => none
+
+def applyPre (sha : Content → Sum) (s : RState) : Pre → RState
+  | .damage u c => s.set u { s.ent u with content := c }
+  | .crash st k =>
+    let s := s.tick st.dt
+    match gate st with
+    | some _ => s
+    | none =>
+      match writes sha s.now (s.ent st.url.id) st.flags (net st.flags st.server) st.answer with
+      | some c => s.set st.url.id (partialWrite sha s.now (s.ent st.url.id) c (landing st.url st.server) k)
+      | none => s
+
+inductive Ev
+  | step (st : Step)
+  | pre (p : Pre)
+deriving Repr, DecidableEq
+
+/-- results of the complete invocations of a history with crashes and damage, and the state it ends in -/
+def runEvWith (legacy : Bool) (sha : Content → Sum) : RState → List Ev → List RResult × RState
+  | s, [] => ([], s)
+  | s, .step st :: rest =>
+    let (r, s') := invokeWith legacy sha s st
+    let (rs, s'') := runEvWith legacy sha s' rest
+    (r :: rs, s'')
+  | s, .pre p :: rest => runEvWith legacy sha (applyPre sha s p) rest
+
+/-- state reached from the empty cache by a history with crashes and damage -/
+def reachEv (sha : Content → Sum) (h : List Ev) : RState := (runEvWith false sha RState.init h).2
+
+/-- per-step observation used by the driver: result and the entries of the urls `0..k-1` after each
+complete invocation -/
+def observe (legacy : Bool) (sha : Content → Sum) (k : Nat) : RState → List Ev → List (RResult × List Entry)
   | _, [] => []
-  | s, st :: rest =>
+  | s, .step st :: rest =>
     let (r, s') := invokeWith legacy sha s st
     (r, (List.range k).map s'.ent) :: observe legacy sha k s' rest
+  | s, .pre p :: rest => observe legacy sha k (applyPre sha s p) rest
+
+/-! ## An invocation whose last cache write fails
+
+The real binary can be made to fail exactly between the cache writes without being killed: under a
+file-size limit (`ulimit -f 1`: 512 bytes) `WriteChecksum`, `WriteTimestamp` and
+`WriteResolvedLocation` succeed and `Write` — the Taskfile is longer — fails with "file too large"
+(as with a full disk), leaving the first 512 bytes in `<key>.yaml`; the load ends with that error
+(exit code 1), nothing runs.  In the model's terms such an invocation *is* `Pre.crash st 3` followed
+by `Pre.damage u (some garbage)` whenever it gets as far as the writes (`limitedPre`), and an
+ordinary invocation otherwise (nothing else it writes is that long). -/
+
+/-- the content number that stands for "not a Taskfile the harness ever serves" (a truncated file) -/
+def garbage : Content := 0
+
+/-- the events a size-limited invocation amounts to, if it gets to the cache writes -/
+def limitedPre (sha : Content → Sum) (s : RState) (st : Step) : Option (List Pre) :=
+  match gate st with
+  | some _ => none
+  | none =>
+    match writes sha (s.now + st.dt) (s.ent st.url.id) st.flags (net st.flags st.server) st.answer with
+    | some _ => some [.crash st 3, .damage st.url.id (some garbage)]
+    | none => none
+
+inductive LEv
+  | ev (e : Ev)
+  | limited (st : Step)
+deriving Repr, DecidableEq
+
+/-- the history of invocations, crashes and damage that a history with size-limited invocations amounts to -/
+def expandL (legacy : Bool) (sha : Content → Sum) : RState → List LEv → List Ev
+  | _, [] => []
+  | s, .ev (.step st) :: rest => .step st :: expandL legacy sha (invokeWith legacy sha s st).2 rest
+  | s, .ev (.pre p) :: rest => .pre p :: expandL legacy sha (applyPre sha s p) rest
+  | s, .limited st :: rest =>
+    match limitedPre sha s st with
+    | some ps => ps.map .pre ++ expandL legacy sha (ps.foldl (applyPre sha) s) rest
+    | none => .step st :: expandL legacy sha (invokeWith legacy sha s st).2 rest
+
+/-- per-step observation used by the driver; a size-limited invocation that gets to the writes ends
+with exit code 1 and has run nothing -/
+def observeL (legacy : Bool) (sha : Content → Sum) (k : Nat) : RState → List LEv → List (RResult × List Entry)
+  | _, [] => []
+  | s, .ev (.step st) :: rest =>
+    let (r, s') := invokeWith legacy sha s st
+    (r, (List.range k).map s'.ent) :: observeL legacy sha k s' rest
+  | s, .ev (.pre p) :: rest => observeL legacy sha k (applyPre sha s p) rest
+  | s, .limited st :: rest =>
+    match limitedPre sha s st with
+    | some ps =>
+      let s' := ps.foldl (applyPre sha) s
+      (.error 1, (List.range k).map s'.ent) :: observeL legacy sha k s' rest
+    | none =>
+      let (r, s') := invokeWith legacy sha s st
+      (r, (List.range k).map s'.ent) :: observeL legacy sha k s' rest
+
+/-- the state a history with size-limited invocations ends in -/
+def stateL (legacy : Bool) (sha : Content → Sum) : RState → List LEv → RState
+  | s, [] => s
+  | s, .ev (.step st) :: rest => stateL legacy sha (invokeWith legacy sha s st).2 rest
+  | s, .ev (.pre p) :: rest => stateL legacy sha (applyPre sha s p) rest
+  | s, .limited st :: rest =>
+    match limitedPre sha s st with
+    | some ps => stateL legacy sha (ps.foldl (applyPre sha) s) rest
+    | none => stateL legacy sha (invokeWith legacy sha s st).2 rest
 
 end TaskModel.Remote
